@@ -28,6 +28,7 @@ CASES = [
     Case('G_inv_before_S', SW, "        z = self.mat_vec(self.S, x2)\n        y = self.mat_vec(self.params.G_inv, z)", "        z = self.mat_vec(self.params.G_inv, x2)\n        y = self.mat_vec(self.S, z)", 'C15.R5', 'update_nodes'),
     Case('residual_f_at_previous_node_time', SW, "    def eval_f_at_all_nodes(self):\n        L = self.level\n        P = self.level.prob\n        for m in range(self.coll.num_nodes):\n            L.f[m + 1] = P.eval_f(L.u[m + 1], L.time + L.dt * self.coll.nodes[m])", "    def eval_f_at_all_nodes(self):\n        L = self.level\n        P = self.level.prob\n        for m in range(self.coll.num_nodes):\n            L.f[m + 1] = P.eval_f(L.u[m + 1], L.time + L.dt * self.coll.nodes[m - 1])", 'C15.R6', 'eval_f_at_all_nodes'),
     Case('residual_sign_of_u', SW, "            residual[m] -= self.level.u[m + 1]", "            residual[m] += self.level.u[m + 1]", 'C15.R6', 'get_residual'),
+    Case('paradiag_residual_skippable_by_stage', 'pySDC/implementations/controller_classes/controller_ParaDiag_nonMPI.py', "            # compute residuals locally\n            S.levels[0].sweep.compute_residual()\n", "            # compute residuals locally\n            S.levels[0].sweep.compute_residual(stage='IT_FINE')\n", 'C15.R7', 'controller_ParaDiag_nonMPI', note='seed C15c_3'),
     # twins
     Case('twin_gamma_inlined', PH, "    gamma = alpha ** (-np.arange(N) / N)\n    return sp.diags(gamma)", "    weights = alpha ** (-np.arange(N) / N)\n    return sp.diags(weights)", benign=True),
     Case('twin_eig_names', SW, "        w, S = np.linalg.eig(A)\n        S_inv = np.linalg.inv(S)", "        w, S = np.linalg.eig(A)\n        Sinv = np.linalg.inv(S)\n        S_inv = Sinv", benign=True),
